@@ -44,6 +44,27 @@ func checkComponents(res *report.Result, p *synth.Project, version string, doc *
 	for k := range may {
 		names[k.Name]++
 	}
+	// "one schema for each reachable struct, enum and alias": n same-named declarations need n schemas,
+	// under whatever keys; their content is not compared (which key belongs to which is not stated)
+	mustByName := map[string]int{}
+	for k := range must {
+		mustByName[k.Name]++
+	}
+	for name, n := range mustByName {
+		if n < 2 {
+			continue
+		}
+		have := 0
+		for key := range schemas {
+			if key == name || strings.Contains(key, name) {
+				have++
+			}
+		}
+		if have < n {
+			res.AddViolation("same-named-types-share-one-component", where(map[string]string{"cause": "reachable-types-in-different-packages-share-a-bare-name"}), fmt.Sprintf("[%s %s] %d reachable declarations are named %s (different packages) but components.schemas has %d schema(s) for them: %v", p.Name, version, n, name, have, keysOf(schemas)), cs(map[string]any{"type": name}))
+			break
+		}
+	}
 	for k := range must {
 		if names[k.Name] > 1 {
 			continue
